@@ -76,8 +76,21 @@ def check(run):
                 ok = is_node(d) and d['k'] == 'call' and q.callee_name(d) == 'std::min' and 'm_mss' in [q.render(ws, x) for x in d['args']]
                 why = 'segment length %s is %s, not std::min(remaining, m_mss)' % (name, txt)
         run.check(ok, 'R11', 'segment-bounded-by-mss', ws.norm, ws.loc(c), why, 'n = min(buf_size, m_mss)')
-    adv = [n for n in ws.all_nodes() if n['k'] == 'bin' and n['op'] in ('+=', '-=') and q.render(ws, n['lhs']) in ('ptr', 'buf_size', 'ret')]
-    run.check(len(adv) == 3 and all(q.render(ws, n['rhs']) == 'packet_size' for n in adv), 'R11', 'segment-advance', ws.norm, ws.loc(), 'pointer/remaining/total are not all advanced by the segment length', 'ptr, buf_size and ret advance by packet_size')
+    # whatever the locals are called: the source pointer (+=), the remaining count (-=) and the returned total (+=) all move by the segment length
+    okadv = False
+    for c in asg:
+        a0, a1 = q.linform(ws, c['args'][0]), q.linform(ws, c['args'][1])
+        n = q.lin_sub(a1, a0) if a0 and a1 else None
+        if not (n and len(n[0]) == 1 and n[1] == 0 and a0 and len(a0[0]) == 1):
+            continue
+        seglen, ptrname = list(n[0])[0], list(a0[0])[0]
+        sdef = [v for x in ws.all_nodes() if x['k'] == 'decl' for v in x['vars'] if v.get('name') == seglen]
+        d = q.strip_casts(sdef[0]['init']) if sdef else None
+        remaining = [q.render(ws, x) for x in d['args'] if q.render(ws, x) != 'm_mss'] if is_node(d) and d['k'] == 'call' and q.callee_name(d) == 'std::min' else []
+        totals = {q.render(ws, r['e']) for r in q.returns(ws) if r.get('e') is not None and q.strip_casts(r['e']).get('k') == 'ref'}
+        moves = {(q.render(ws, x['lhs']), x['op']) for x in ws.all_nodes() if x['k'] == 'bin' and x['op'] in ('+=', '-=') and q.render(ws, x['rhs']) == seglen}
+        okadv = (ptrname, '+=') in moves and any((r_, '-=') in moves for r_ in remaining) and any((t_, '+=') in moves for t_ in totals)
+    run.check(okadv, 'R11', 'segment-advance', ws.norm, ws.loc(), 'source pointer, remaining count and returned total are not all advanced by the segment length', 'pointer += n, remaining -= n, total += n')
 
     run.clause('never merged, split or altered: payload writer table; retransmission queue holds and re-sends whole packets')
     engines.r2_writer_table(run, P + '::buffer', {
